@@ -227,6 +227,11 @@ def make_real(case):
                 src = getattr(calc, prop)
                 props[prop] = [("%d%d" % tuple(k.v), numpy.array(v2p(numpy.asarray(src[k], dtype=float), p_tv, numpy.asarray(base.p_array, dtype=float)), dtype=float))
                                for k, _ in getattr(base, prop).items()]
+        else:
+            # ... and for the volume base: the CALCULATOR's tensors of that name (not what the volume-base views hand out)
+            for prop in IJ_PROPS:
+                src = getattr(calc, prop)
+                props[prop] = [("%d%d" % tuple(k.v), numpy.array(src[k], dtype=float)) for k in src.keys()]
     axis = base.p_array if case["base"] == "tp" else base.v_array
     return base, {"name_expected": case["base"], "t": numpy.array(base.t_array, dtype=float),
                   "axis": numpy.array(axis, dtype=float), "props": props, "base_name": base._base_name, "calc": calc}
